@@ -1,0 +1,43 @@
+//! Read-only structural snapshot for external verification tooling.
+//! Compiled only with `--cfg itree_verif`.
+use crate::key::node::Color;
+use crate::key::tree::KeyExpTree;
+
+pub struct VerifNode<K, V> {
+    pub parent: u32,
+    pub left: u32,
+    pub right: u32,
+    pub red: bool,
+    pub key: K,
+    pub val: V,
+}
+
+pub struct VerifSnapshot<K, V> {
+    pub root: u32,
+    pub nodes: Vec<VerifNode<K, V>>,
+    pub unused: Vec<u32>,
+    pub unused_capacity: usize,
+}
+
+impl<K: Copy, E, V: Copy> KeyExpTree<K, E, V> {
+    pub fn verif_snapshot(&self) -> VerifSnapshot<K, V> {
+        VerifSnapshot {
+            root: self.root,
+            nodes: self
+                .store
+                .buffer
+                .iter()
+                .map(|n| VerifNode {
+                    parent: n.parent,
+                    left: n.left,
+                    right: n.right,
+                    red: n.color == Color::Red,
+                    key: n.entity.key,
+                    val: n.entity.val,
+                })
+                .collect(),
+            unused: self.store.unused.clone(),
+            unused_capacity: self.store.unused.capacity(),
+        }
+    }
+}
